@@ -119,6 +119,11 @@ func recC15(c *ctx) {
 		v10 := i%2 == 1
 		addRand := i%4 >= 2
 		z := r.Bytes(32)
+		// the key and alpha are handed over as sub-slices of larger poisoned buffers: a callee must not write past them
+		skBuf := append(append([]byte(nil), sk...), bytes.Repeat([]byte{0xa7}, 96)...)
+		alBuf := append(append([]byte(nil), alpha...), bytes.Repeat([]byte{0xa7}, 32)...)
+		sk = ed25519.PrivateKey(skBuf[:64])
+		alpha = alBuf[:len(alpha)]
 		var pi []byte
 		switch {
 		case !addRand && !v10:
@@ -130,6 +135,8 @@ func recC15(c *ctx) {
 		default:
 			pi, _ = ecvrf.ProveWithAddedRandomness_v10(bytes.NewReader(z), sk, alpha)
 		}
+		tailOK := bytes.Equal(skBuf[64:], bytes.Repeat([]byte{0xa7}, 96)) && bytes.Equal(alBuf[len(alpha):], bytes.Repeat([]byte{0xa7}, 32)) &&
+			bytes.Equal(skBuf[:32], seed)
 		// ---- the honest proof, recomputed by the specification from the seed
 		v := &vrfCtx{t: &htab{}}
 		h0 := v.sha(seed)
@@ -155,7 +162,7 @@ func recC15(c *ctx) {
 		v.beta(&G)
 		beta, _ := ecvrf.ProofToHash(pi)
 		c.w.Emit(vt.Ev{"op": "vrfprove", "cfg": c.cfg, "seed": vt.B(seed), "pk": vt.B(pk), "alpha": vt.B(alpha), "v10": v10, "addRand": addRand,
-			"z": vt.B(z), "pi": vt.B(pi), "beta": vt.B(beta), "sha": v.t.ents})
+			"z": vt.B(z), "pi": vt.B(pi), "beta": vt.B(beta), "sha": v.t.ents, "tailok": tailOK})
 		// ---- verification of the honest proof, and under the other challenge format
 		verify("honest", v10, pk, pi, alpha, vtables(v10, pk, pi, alpha))
 		verify("crossversion", !v10, pk, pi, alpha, vtables(!v10, pk, pi, alpha))
@@ -172,6 +179,13 @@ func recC15(c *ctx) {
 		pk2 := ed25519.NewKeyFromSeed(r.Bytes(32))[32:]
 		verify("otherkey", v10, pk2, pi, alpha, vtables(v10, pk2, pi, alpha))
 		verify("shortproof", v10, pk, pi[:79], alpha, &htab{})
+		// the s < L check of the proof decoder on the scalar boundary family (a rotating part per run)
+		bd := vt.Boundary256()
+		for j := (i + int(c.r.Int63()%7)) % 7; j < len(bd); j += 7 * 6 {
+			pb := append(append([]byte(nil), pi[:48]...), bd[j]...)
+			b, err := ecvrf.ProofToHash(pb)
+			c.w.Emit(vt.Ev{"op": "vrfp2h", "cfg": c.cfg, "pi": vt.B(pb), "p2hok": err == nil, "p2h": vt.B(b)})
+		}
 		// ---- proofs built with the secret for a torsion-shifted Gamma: only the cofactor handling decides
 		for _, ti := range []int{4, 2, 1 + r.Intn(7)} {
 			var G2 curve.EdwardsPoint
